@@ -318,23 +318,8 @@ func c11L2(r *Run, rep *core.Report) {
 			}
 			rep.Check(bad == "", "C11.L2", fn(f)+" chain walk", pos, "every bucket of the chain is visited before the chain is released", bad)
 		}
-		if mm.IsEmpty != nil {
-			nChain++
-			f := mm.IsEmpty
-			m := &core.Machine[bool]{P: r.P, Fn: f, Spec: core.Spec{}}
-			bad := ""
-			m.Step = func(ctx *core.Ctx[bool], s bool, in ssa.Instruction) []bool {
-				if ret, ok := in.(*ssa.Return); ok && len(ret.Results) == 1 {
-					if b, isC := core.ConstBool(ret.Results[0]); isC && b && !s {
-						bad = "reports the chain empty before reaching its end"
-					}
-				}
-				return []bool{s}
-			}
-			m.Edge = chainEndEdge(r)
-			m.Run()
-			rep.Check(bad == "", "C11.L2", fn(f)+" chain walk", r.P.Pos(f.Pos()), "emptiness is reported only after the whole chain was scanned", bad)
-		}
+		// the bucket-emptiness test that triggers shrink attempts is a heuristic (a wrong answer costs a useless or a
+		// missed shrink attempt, resize re-checks the counters): not a rule
 	}
 	// chain walks advance along the link of the bucket they stand on
 	nAdv := 0
@@ -373,7 +358,7 @@ func c11L2(r *Run, rep *core.Report) {
 	}
 	rep.MinCount("C11.L2", "chain-walk advance steps", nAdv, 6)
 	rep.MinCount("C11.L2", "slot loops", nSlot, 8)
-	rep.MinCount("C11.L2", "chain walks", nChain, 5)
+	rep.MinCount("C11.L2", "chain walks", nChain, 4)
 }
 
 // linkValue: v is the chain link of a bucket just read (a load, atomic or plain, of a link word), possibly
@@ -867,10 +852,12 @@ func tableLenForm(r *Run, mm *core.MapModel, v ssa.Value) (string, bool) {
 		k, isC := core.ConstInt(x.Y)
 		if isLenOfBuckets(x.X) && isC {
 			switch {
-			case (x.Op == token.SHL || x.Op == token.SHR) && k == 1:
-				return "current length shifted by one", true
-			case (x.Op == token.MUL || x.Op == token.QUO) && k == 2:
-				return "current length times/divided by two", true
+			case x.Op == token.SHR && k == 1, x.Op == token.QUO && k == 2:
+				return "half the current length", true
+			case x.Op == token.SHL && k >= 1 && k <= 8:
+				return fmt.Sprintf("current length shifted left by %d", k), true
+			case x.Op == token.MUL && k >= 2 && k&(k-1) == 0:
+				return fmt.Sprintf("current length times %d", k), true
 			}
 		}
 		return "arithmetic " + x.Op.String(), false
